@@ -263,8 +263,14 @@ func (p c17) Run(ctx *core.RunCtx) {
 	// side is wiped after construction in half of the runs (a generator must
 	// not depend on the caller's slice after it has been keyed)
 	keyA := append([]byte{}, key...)
-	A := newC17Side(ctx, keyA, r, d)
-	B := newC17Side(ctx, append([]byte{}, key...), r, d)
+	// the sampler is built over the ring, or over one of its level views (its own level views then go above it)
+	rBase := r
+	if L > 0 && ch.Chance("sampler-built-on-level-view", 1, 4) {
+		rBase = r.AtLevel(ch.Draw("base-level", L))
+		ctx.Count("probe.sampler-built-on-level-view", 1)
+	}
+	A := newC17Side(ctx, keyA, rBase, d)
+	B := newC17Side(ctx, append([]byte{}, key...), rBase, d)
 	if ch.Chance("short-reads-from-source", 1, 3) {
 		// the system's source delivers its bytes in pieces (a legal io.Reader); the twin's in one piece
 		sg := core.NewXoshiro(uint64(ch.Draw("short-read-seed", 1<<16)))
@@ -349,12 +355,12 @@ func (p c17) Run(ctx *core.RunCtx) {
 	// in the same order, the history replayed: bit-identical outputs.
 	A.src.Reset()
 	A.rec.bytes, A.rec.calls = 0, 0
-	smp, err := ring.NewSampler(A.rec, r, d.params(), d.mont)
+	smp, err := ring.NewSampler(A.rec, rBase, d.params(), d.mont)
 	if err != nil {
 		ctx.Harness("NewSampler: %v", err)
 	}
 	A.views = []ring.Sampler{smp}
-	A.lvls = []int{L}
+	A.lvls = []int{rBase.Level()}
 	ctx.Count("oracle.reset-replay", 1)
 	var acc = map[int]*ring.Poly{}
 	_ = acc
@@ -426,8 +432,8 @@ func (p c17) Run(ctx *core.RunCtx) {
 		key2 := append([]byte{}, key...)
 		key2[ch.Draw("key-flip-byte", 32)] ^= 1 << uint(ch.Draw("key-flip-bit-2", 8))
 		if entropyOK {
-			C := newC17Side(ctx, key2, r, d)
-			pa := newC17Side(ctx, key, r, d).views[0].ReadNew()
+			C := newC17Side(ctx, key2, rBase, d)
+			pa := newC17Side(ctx, key, rBase, d).views[0].ReadNew()
 			pc := C.views[0].ReadNew()
 			if pa.Equal(&pc) {
 				ctx.Fail("distinct-key", d.kindName()+"|same-polynomial", "samplers keyed with different keys produced the same first polynomial")
